@@ -57,6 +57,25 @@ LastColumnFixed ==
                 ((l2 - 1) \in Cols(p, l2, a) /\ (l2 - 1) \in Cols(p, l2, b))
                    => Slot(p, l2, a, l2 - 1) = Slot(p, l2, b, l2 - 1)
 
+\* Layout.tla (integers only, the module the unbounded proofs of LayoutProofs.tla are about) defines the same
+\* layout as Compact.tla: checked here on every instance of the scope
+LY == INSTANCE Layout
+LayoutAgrees ==
+    l1 > 0 =>
+      /\ p.window = LY!PWindow(l1, l2, w0) /\ p.width = LY!PWidth(l1, l2, w0)
+      /\ p.ri1 = LY!PRi1(l1, l2, w0) /\ p.ri2 = LY!PRi2(l1, l2, w0) /\ p.ri3 = LY!PRi3(l1, l2, w0)
+      /\ \A ri \in Rows :
+            /\ RowMinCi(p, l2, ri) = LY!PRowMinCi(l1, l2, w0, ri)
+            /\ RowMaxCi(p, l2, ri) = LY!PRowMaxCi(l1, l2, w0, ri)
+            /\ RowStart(p, ri) = LY!PRowStart(l1, l2, w0, ri)
+            /\ \A ci \in 0..(l2 - 1) :
+                  /\ Slot(p, l2, ri, ci) = LY!PSlot(l1, l2, w0, ri, ci)
+                  /\ (ci \in BandCols(l1, l2, w0, ri)
+                        <=> LY!InBandL(ri, ci, l1, l2, IF w0 = 0 THEN Max2(l1, l2) ELSE w0))
+                  /\ (ci \in BandCols(l1, l2, w0, ri)
+                        <=> (ci >= LY!JStart(ri, l1, l2, IF w0 = 0 THEN Max2(l1, l2) ELSE w0)
+                             /\ ci < LY!JEnd(ri, l1, l2, IF w0 = 0 THEN Max2(l1, l2) ELSE w0)))
+
 \* the full matrix can serve as the compact buffer exactly when no row is shifted
 IdentityLayout == \A ri \in Rows : \A ci \in Cols(p, l2, ri) : Slot(p, l2, ri, ci) = ci + 1
 ReuseDecision == l1 > 0 => ((p.width = l2 + 1 /\ p.ri2 = l1) => IdentityLayout)
